@@ -2,6 +2,9 @@ SPECIFICATION Spec
 CONSTANT TraceFile = "trace.ndjson"
 INVARIANTS
   Inv_C17_JournalIsMeta
+  Inv_C01_ConservationAt
+  Inv_C03_MovesAt
+  Inv_C04_EffectiveAt
   Inv_C05_Status
   Inv_C05_VolumesAt
   Inv_C05_AggAt
